@@ -29,7 +29,15 @@ fn mk_parametric(inst: &InstRep, declared: &[u64]) -> v1::ParametricInstance {
         .map(|id| {
             let mut x = v1::Parameter::default();
             x.id = *id;
-            x.name = Some(format!("p{id}"));
+            // metadata is optional: parameter 11 has none at all, 10 has all of it
+            if *id != 11 {
+                x.name = Some(format!("p{id}"));
+            }
+            if *id == 10 {
+                x.subscripts = vec![3, -1];
+                x.description = Some("weight".into());
+                x.parameters = [("k".to_string(), "v".to_string())].into_iter().collect();
+            }
             x
         })
         .collect();
